@@ -573,6 +573,38 @@ def explore_c15(tier, seed):
             elif len(res["mismatches"]) < 20:
                 res["mismatches"].append({"phase": "ingestion", "what": "arrays ingested from permuted inputs differ from the canonical arrays",
                                           "scenario_seed": sc["seed"]})
+        # event constructors: lists of affected labels and weight Series given in another order
+        m = 30 if tier != "thorough" else 400
+        for i in range(m):
+            rng = random.Random(seed * 104729 + i)
+            case = gen_c12_case(rng)
+            if case["bad"] is not None:
+                continue
+            twin = copy.deepcopy(case)
+            for key in ("aff", "regs", "secs", "weights", "wr", "ws", "series"):
+                if twin.get(key):
+                    rng.shuffle(twin[key])
+            canon = copy.deepcopy(case)
+            for key in ("aff", "regs", "secs", "weights", "wr", "ws", "series"):
+                if canon.get(key):
+                    canon[key] = sorted(canon[key], key=lambda x: json.dumps(x))
+            a, b = run_c12_impl(canon), run_c12_impl(twin)
+            res["scenarios"] += 1
+            res["steps"] += 1
+            res["paired_runs"] += 1
+            if twin != canon:
+                res["nontrivial"] += 1
+            bump(res, f"constructor/{case['kind']}/{case.get('wmode', '-')}")
+            if a["out"] != b["out"]:
+                viol(res, "C15", f"event constructor ({case['kind']}): accepted or rejected depending on the order of the labelled inputs",
+                     case={"canonical": canon, "permuted": twin}, a=a, b=b)
+            elif a["out"] == "ok":
+                if a["impact"] != b["impact"] or a["aff"] != b["aff"]:
+                    viol(res, "C15", f"event constructor ({case['kind']}): per-industry impact depends on the order in which affected labels / weights are given (not bit-identical)",
+                         case={"canonical": canon, "permuted": twin}, a=a["impact"], b=b["impact"])
+                elif b["order"] != sorted(b["order"]):
+                    viol(res, "C15", f"event constructor ({case['kind']}): impact not reported in lexicographic (region, sector) order",
+                         case={"canonical": canon, "permuted": twin}, order=b["order"])
     finally:
         dr.close()
     return res
